@@ -24,6 +24,7 @@ func Run(k *report.Check) {
 	k.Rule = "one-table-held tier: histories over three keys in which the creation of the n-th table file (n<=4) is held back, so that one flush or compaction step stays in the middle of its work while the other queue proceeds (a flush lands inside a compaction step); reads after every write once everything not held has come to rest, and after the release. schedule tier: four designated colliding histories (overwrite across a rotation, delete of a flushed key, three level-0 tables, a multi-table sorted level) with the foreground thread reading every key and scanning after every write while the real flush and compaction goroutines run under the cooperative scheduler, every schedule within the delay bound; history tier: every sequence of put/delete over colliding keys {a,ab,b,80ff,00} up to the depth, under every tiny option set, with background flush+compaction either completed or held back at every step (sync is an enumerated action); after every write Get of every key and ScanPrefix of every prefix are compared with a map. non-trivial = distinct (options, layout: sealed memtables / tables per level, reference contents) in which a read was served while an overwritten or deleted version of the key still existed in an older memtable or table"
 	k.Assumptions = []string{"single writer (as in the operator)", "in the history tier background work is either quiescent or held back before its first storage operation; the schedule tier interleaves it at synchronisation operations", "MemoryFilesystem"}
 	k.Budget(150, 1500)
+	k.Parts(3)
 	p := params{depth: k.Pick(5, 6), nkeys: k.Pick(4, 5), cfgs: dkvh.Configs(k.Thorough())}
 	k.ExploreProc(fmt.Sprintf("history/d=%d,keys=%d", p.depth, p.nkeys), mc.Config{}, p, history)
 	hp := HeldOneParams(k.Pick(4, 6))
